@@ -177,6 +177,9 @@ CORRUPTIONS = [
  ("Error", "struct S { #[error(source)] a: E1, #[error(source)] b: E1 }", "conflict"),
     ("Deref", "struct S { #[deref] a: u8, #[deref] b: u8 }", "conflict-panic-ok"),
     # meaningless for the item kind / wrong position
+    ("AsRef", "#[as_ref(forward)] struct S(Vec<u8>, u8);", "position"), ("AsMut", "#[as_mut(u8)] struct S { a: u8, b: u8 }", "position"),
+    ("AsRef", "#[as_ref(forward)] struct S;", "position"), ("AsRef", "#[as_ref(u8)] struct S();", "position"),
+    ("AsMut", "#[as_mut(forward)] struct S { a: Vec<u8>, #[as_mut(skip)] b: u8 }", "position"),
     ("Mul", "struct S(#[mul(forward)] u8);", "position"), ("Mul", "#[mul(forward)] enum E { A(u8) }", "position"),
     ("Deref", "enum E { #[deref(forward)] A(u8) }", "position-panic-ok"),
     ("TryFrom", "#[try_from(repr)] struct S(u8);", "position"),
